@@ -48,6 +48,8 @@ def build(dirname, compl, rng, nrows=24, nwrong=4):
             fs = pr.doprint(sympy.sympify(f, locals=locs))
         except Exception:
             continue
+        if fs in UNIQUES or any(r["fun"] == fs and r["match"] != k for r in rows):
+            continue        # in a generated library a string determines its unique: keep the synthetic one consistent with that
         rows.append(dict(fun=fs, match=k, chain=chain, wrong=False))
     # deliberately wrong merges: right map but wrong unique with the same parameter count, or a wrong scale
     cand = [r for r in rows if r["chain"]]
